@@ -565,6 +565,9 @@ class Interp:
                 stored = ast.parse(val.text, mode="eval").body
             except SyntaxError:
                 stored = None
+            if isinstance(stored, ast.Call) and isinstance(stored.func, ast.Name) and stored.func.id == "bool" and len(stored.args) == 1 \
+                    and not stored.keywords and isinstance(stored.args[0], (ast.BoolOp, ast.UnaryOp)):
+                stored = stored.args[0]      # bool(A and B) is tested like A and B
             if isinstance(stored, ast.BoolOp) or (isinstance(stored, ast.UnaryOp) and isinstance(stored.op, ast.Not)):
                 if not any(isinstance(n, (ast.NamedExpr, ast.Lambda, ast.Await, ast.Yield)) for n in ast.walk(stored)):
                     return self.cond(stored)
